@@ -148,6 +148,18 @@ class DiffPart:
                 verdict.add("bulk_schedule: no / wrong terminal signal", f"{req} -> {real}", dict(stream="diff", request=req, real=real))
             if f.get("term") == "done" and ("nostop" in req or (req.startswith("bulk ") and int(req.split()[4]) > n)):
                 verdict.add("bulk_schedule: set_done without a stop request", f"{req} -> {real}", dict(stream="diff", request=req, real=real))
+            # the STATEMENT of Props/C17 bulk_visits_each_once_in_order / bulk_stop_cuts_at_chunk_boundary, evaluated directly
+            qs = q.split()
+            stoppable, st = qs[2] == "1", int(qs[3])
+            if not stoppable or st < 0:
+                want = ("value", n)
+            else:
+                b = (st + C - 1) // C * C
+                want = ("done", b) if b < n else ("value", n)
+            if (f.get("term"), k) != want:
+                verdict.add("bulk_schedule: stop does not cut at the first chunk boundary at or after the stop point (or indices missing without stop)",
+                            f"{req}: real `{real}`, the theorems say term={want[0]} after indices 0..{want[1] - 1}",
+                            dict(stream="diff", request=req, real=real, theorem_says=dict(term=want[0], visited=want[1]), chunk=C))
             # the generated model
             model = driver.ask("ask bulk loop | " + q)
             cov["traces_validated_against_impl"] += 1
@@ -355,9 +367,9 @@ class BulkRtPart:
         for scn, n in self.SCENARIOS:
             if n is None:
                 n = chunk + 2
-            runs = [vlib.run_rt(exe, scn, "dfs", 2 if quick else 3, 1200 if quick else 30000, seed),
-                    vlib.run_rt(exe, scn, "random", 0, 400 if quick else 5000, seed),
-                    vlib.run_rt(exe, scn, "pct", 3, 400 if quick else 5000, seed + 7)]
+            runs = [vlib.run_rt(exe, scn, "dfs", 2 if quick else 3, 1000 if quick else 30000, seed),
+                    vlib.run_rt(exe, scn, "random", 0, 300 if quick else 5000, seed),
+                    vlib.run_rt(exe, scn, "pct", 3, 300 if quick else 5000, seed + 7)]
             seen = {}
             for r in runs:
                 st = r["stats"]
@@ -394,8 +406,64 @@ class BulkRtPart:
         cov["parts_wall_s"][self.name] = round(time.time() - t0, 1)
 
 
+# ------------------------------------------------------------------------------------------------ proof part
+class ProofPart:
+    """The runner does not report a broken proof gate when some part reported a failing input — also when that input is
+    a known finding.  This part makes sure a broken proof of Props/C17 against the regenerated text is always reported
+    under its own site (the concrete failing inputs, if any, come from the monitors of the other parts, which include
+    the theorem statements evaluated directly on the real code, and from the d <= 5000 search of the witness step)."""
+    name = "proof"
+
+    def run(self, tier, seed, verdict, cov, driver):
+        t0 = time.time()
+        ok, out, _ = vlib.lake_build(["UnifexModel.Props.C17"])
+        if not ok:
+            errs = [l for l in out.split("\n") if "error" in l][:8]
+            others = sorted({v[0] for v in verdict.violations if v[3] and v[0] not in (SITE_OOB, SITE_SEQ_UAS)})
+            verdict.add("proof: Props/C17 does not check against the definitions regenerated from the C++ text",
+                        " / ".join(errs)[:1200] + (f"  (concrete failing inputs reported under: {others[:3]})" if others else ""),
+                        dict(stream="proof", broken_theorems=errs, checker_cmd="cd lean && lake build UnifexModel.Props.C17", failing_inputs_reported_under=others), found_input=bool(others))
+        cov["parts_wall_s"][self.name] = round(time.time() - t0, 1)
+
+
 # ------------------------------------------------------------------------------------------------ entry point
+def do_replay(path):
+    """./check C17 --replay FILE: re-run the failing input of a replay file on the real code (and the model)."""
+    import json
+    p = json.load(open(path))
+    print(f"replaying {p.get('site')}")
+    if "schedule" in p and "scenario" in p:
+        exe = vlib.build_rt("scn_c17.cpp", ["static_thread_pool.cpp", "inplace_stop_token.cpp", "manual_event_loop.cpp", "async_stack.cpp", "exception.cpp"])
+        r = vlib.run_rt(exe, p["scenario"], replay=p["schedule"])
+        for sched, why, hh in r["fails"]:
+            print("FAIL", why, "|", hh)
+        for cnt, sched, hh in r["hist"]:
+            print("HISTORY", hh)
+        return 1 if r["fails"] else 0
+    exe = vlib.build_plain(HARNESS, LIBS, sanitize="address,undefined", name="diff_c17")
+    reqs = []
+    if "distance" in p and "request" not in p:
+        d = int(p["distance"])
+        reqs = [f"findif par loop {d} {d + 40} 0", f"guard {d}"]
+    elif "request" in p:
+        reqs = [p["request"]]
+    out, err, rc = Harness(exe).batch(reqs)
+    for q, o in zip(reqs, out):
+        print(f"{q}  ->  {o}")
+    if len(out) < len(reqs):
+        print("harness aborted:", err[-1500:])
+        return 1
+    bad = any(int(kv(o).get("oob", 0)) > 0 or "SEGV" in o or (("res" in kv(o)) and kv(o).get("res") != kv(o).get("exp")) or kv(o).get("after_terminal", "0") != "0" for o in out)
+    if "model_query" in p:
+        drv = vlib.Driver()
+        print("model:", drv.ask("ask bulk " + ("findif" if p["request"].startswith("findif") else "loop") + " | " + p["model_query"]))
+        drv.close()
+    return 1 if bad else 0
+
+
 def run(tier, seed, replay=None):
+    if replay:
+        return do_replay(replay)
     # 1. translator, BEFORE the proof gate
     result, error = None, None
     try:
@@ -407,7 +475,7 @@ def run(tier, seed, replay=None):
         log("C17 translator error: " + error)
     except OSError as e:
         error = f"cannot read the anchored sources: {e}"
-    parts = [TranslatorPart(result, error), DiffPart(), BulkRtPart()]
+    parts = [TranslatorPart(result, error), DiffPart(), BulkRtPart(), ProofPart()]
     return run_check(
         "C17", tier, seed, ["UnifexModel.Props.C17"], parts,
         rule="a case = one request to the real code (bulk_schedule/bulk_transform/bulk_join/indexed_for with a count, policy and stop point; find_if with a distance, policy, "
